@@ -106,6 +106,10 @@ func GetExtendedSpatialIdsWithinRadiusOfLine(startPoint *object.Point, endPoint 
 	// if skipsMeasurement=true, measure the distance between the route line and each id in idsAroundLine
 	if !skipsMeasurement {
 
+		// idsAroundLine comes out of a map in random order and measure1 carries its search state from one
+		// candidate to the next; sort it so that every call measures the candidates in the same order
+		sort.Strings(idsAroundLine)
+
 		for _, id := range idsAroundLine {
 
 			// Get 8 vertexes of the SpatialID
